@@ -27,12 +27,7 @@ PID = 'E02'
 # Defect candidates reported to the lead and not (yet) listed in known_findings.json.  They are printed as
 # CANDIDATE-FINDING lines and recorded in evidence; they do not fail the check unless VERIF_E02_STRICT=1, so that the
 # unchanged tree exits 0 until the lead has decided.  Once a key is in known_findings.json (or fixed) remove it here.
-CANDIDATES = {
-    'find:missed-at-end-of-memory':
-        '--find / --find-tile with a distance > 1 between bytes: a match whose last byte lies in the last (distance-1)*... '
-        'bytes of the searched space is not reported (snapinfo._find stops at 65536 - distance*length instead of '
-        '65535 - distance*(length-1)); e.g. RAM[65533]=1, RAM[65535]=2, `snapinfo.py -f 1,2-2` prints nothing',
-}
+CANDIDATES = {}      # (find:missed-at-end-of-memory was fixed in /repo 33fa0bb: a violation again if it returns)
 
 
 def _mc(parts, cfg):
